@@ -613,8 +613,11 @@ def check_bin(ctx):
     import re
     inst = "C15.bin"
     n = 0
-    FS = re.compile(r"^(std::fs::|std::os::unix::fs::|std::os::fd::|std::process::Command|libc::|nix::|std::io::Write::write|std::io::copy)")
-    OK = re.compile(r"^std::fs::(Metadata|FileType|Permissions)::|^std::io::Write::write_fmt|^std::io::Write::write_all")   # stdout / stderr printing
+    # mutating file-system / process primitives (reads such as fs::metadata, File::open, Path::exists are harmless and allowed)
+    FS = re.compile(r"^(std::fs::(remove_file|remove_dir|remove_dir_all|rename|copy|write|create_dir|create_dir_all|hard_link|soft_link|set_permissions)\b|"
+                    r"std::fs::File::(create|create_new|set_len|set_permissions|options)\b|std::fs::OpenOptions::(write|append|create|create_new|truncate)\b|"
+                    r"std::os::unix::fs::(symlink|chown|lchown|chroot)|std::process::Command|libc::(unlink|rename|truncate|ftruncate|open|creat|write|pwrite)|nix::)")
+    OK = re.compile(r"^$")
     for b in ctx.prog.product_bodies():
         for c in b.calls():
             n += 1
